@@ -126,6 +126,10 @@ func timePool() []*m.Val {
 	for _, u := range []int64{0, 1, 86400, 1577934245, 1577934246, 2147483648, 4102444799} {
 		out = append(out, m.VTime(m.TimeV{Unix: u, Zone: "Local"}))
 	}
+	// the same instants held as UTC (another Go representation of an equal time), one with
+	// a sub-second part, and instants centuries away
+	out = append(out, m.VTime(m.TimeV{Unix: 0, Zone: ""}), m.VTime(m.TimeV{Unix: 1577934245, Zone: ""}), m.VTime(m.TimeV{Unix: 1577934245, Nano: 500000000, Zone: ""}),
+		m.VTime(m.TimeV{Unix: -62104060800, Zone: "Local"}), m.VTime(m.TimeV{Unix: 253370764800, Zone: ""}))
 	return out
 }
 
